@@ -440,7 +440,7 @@ AVOID_BRANCHES = (
 class C11(PropCheck):
     id = 'C11'
     extractors = (float_tests.generate,)
-    modules = ('WpModel.Props.C11', 'WpModel.Props.C11Flow', 'WpModel.Props.C11Inline', 'WpModel.Witness.C11')
+    modules = ('WpModel.Props.C11', 'WpModel.Props.C11Flow', 'WpModel.Props.C11Inline', 'WpModel.Props.C11Events', 'WpModel.Witness.C11')
     trusted_base = (
         'modelled, not verified: layout/float.py avoid_collisions / find_float_position / get_clearance / float_width, '
         'layout/absolute.py absolute_width / absolute_height / absolute_replaced / absolute_block translation, '
@@ -929,7 +929,8 @@ MANIFEST = {
             'placements — and after any document of block-level floats, floats met inside the lines of paragraphs (lines '
             'started again included), BFC roots, images, tables and blocks with collapsing margins laid out by the flow '
             'model — the reported floats are exactly the float list of the context, pairwise disjoint with tops in document '
-            'order, and the verified checker accepts them; clearance is the least sufficient amount and is added to the collapsed position; a float met in a line '
+            'order; a BFC root, image or table with height never overlaps a float, fitting or not; the verified checker '
+            'accepts the whole event stream (all floats and all such boxes) of every document the flow model lays out; clearance is the least sufficient amount and is added to the collapsed position; a float met in a line '
             'is never above the line, and after a deferred float every float of the line is deferred; get_next_linebox '
             'terminates; the used width of a float respects min/max-width and an auto-width float leaves room for its own '
             'margins, borders and paddings; the containing block is the nearest positioned ancestor else the page; a '
